@@ -121,9 +121,14 @@ static void split_sign(const B &r, int &s, B &core)
     }
 }
 
+static bool is_float(const Basic &b)
+{
+    return is_a<RealDouble>(b) or is_a<ComplexDouble>(b);
+}
+
 static std::string res_text(const B &r)
 {
-    if (is_a_Number(*r) and not down_cast<const Number &>(*r).is_exact())
+    if (is_float(*r))
         return "NUMERIC";
     int s;
     B core;
@@ -381,8 +386,7 @@ static bool num_eval(const B &e, cplx &out)
 }
 static bool close_enough(cplx a, cplx b)
 {
-    double scale = 1 + std::abs(b);
-    return std::abs(a - b) <= 1e-7 * scale * scale;
+    return std::abs(a - b) <= 1e-7 * (1 + std::abs(b));
 }
 static std::string cstr(cplx z)
 {
@@ -531,11 +535,10 @@ static std::string run_T(const std::vector<std::string> &tok, const std::string 
     B res;
     std::string part2 = exn_or([&]() {
         res = ti->fn(arg);
-        if (!rarg.is_null() and !conj and eq(*rarg, *zero) and index >= 0 and index < 24
-            and not(is_a_Number(*res) and not down_cast<const Number &>(*res).is_exact())) {
+        if (!rarg.is_null() and !conj and eq(*rarg, *zero) and index >= 0 and index < 24 and not is_float(*res)) {
             // table value: must be the constructor's value at index*pi/12
             B base = ti->fn(mul(pi, Rational::from_two_ints(*integer(index), *integer(12))));
-            if (eq(*res, *base) and not(is_a<Integer>(*arg)))
+            if (eq(*res, *base))
                 return "TAB " + std::to_string(sign) + " " + ti->name + " " + std::to_string(index);
         }
         return res_text(res);
@@ -545,7 +548,7 @@ static std::string run_T(const std::vector<std::string> &tok, const std::string 
         return out;
     // oracle: f(rv + (p/q mod 2) pi) with the reduction done here in exact arithmetic
     try {
-        integer_class two_q = 2 * q, pm;
+        integer_class two_q = integer_class(2) * q, pm;
         mp_fdiv_r(pm, p, two_q);
         double shift = mp_get_d(pm) / mp_get_d(q) * PI;
         bool has_syms = not free_symbols(*r).empty();
@@ -570,7 +573,7 @@ static std::string run_T(const std::vector<std::string> &tok, const std::string 
                 continue;
             }
             // near a pole the reference itself is ill-conditioned
-            if (std::abs(ref) > 1e6)
+            if (std::abs(ref) > 1e4)
                 continue;
             if (is_a<Infty>(*rs))
                 return out + "\t#ORACLE:" + cls + "|result is infinite, reference " + cstr(ref);
@@ -804,7 +807,7 @@ static std::string run_case(const std::string &line)
         if (!res.is_null() and is_a<Integer>(*a) and is_a<Integer>(*res)) {
             const Integer &n = down_cast<const Integer &>(*a);
             unsigned long lim = 0;
-            bool small = n.is_positive() and n.as_integer_class() <= 2000000;
+            bool small = n.is_positive() and n.as_integer_class() <= integer_class(2000000);
             if (small)
                 lim = n.as_uint();
             else if (n.is_positive())
@@ -813,7 +816,7 @@ static std::string run_case(const std::string &line)
                 integer_class cnt(0), prod(1);
                 for (unsigned long k = 2; k <= lim; k++)
                     if (is_prime_ref(k)) {
-                        cnt += 1;
+                        cnt += integer_class(1);
                         if (fam == "PR" and small)
                             prod *= integer_class(k);
                     }
